@@ -106,6 +106,8 @@ def make_cases(rng, tier):
                 for v in rng.sample(vals, min(2, len(vals))):
                     if params[0] == "f32" and cls == "float" and v.get("c") == "fin" and abs(int(v["m"])) % (1 << 29) != 0:
                         continue
+                    if params[0] == "f32" and cls in ("int", "uint", "float") and not f32_exact(v):
+                        continue        # declared domain: float32 targets only for exactly representable values (as for fields)
                     add(block([], ("expr", emath(matom(acall(call("func", fn, [("var", "src")])))))), [inj_func(fn), inj_val("src", v)])
     add(block([], ("expr", emath(matom(acall(call("func", "Two", [("var", "a"), ("var", "b")])))))), [inj_func("Two"), inj_val("a", tv_int("u8", 9)), inj_val("b", tv_int("i32", -4))])
     add(block([], ("expr", emath(matom(acall(call("func", "Mix3", [("const", kint(300)), ("const", kstr("x")), ("const", kreal("2.0"))])))))), [inj_func("Mix3")])
